@@ -64,7 +64,7 @@ add("C02","exploration",
  "Trusted: /proc-based idle detection; finding c02.cmd-race is only accepted for multi-command sessions with suffix-only loss and a trace showing shutdown before a later command.",
  "DESIGN.md §2 C02")
 add("C07","exploration",
- "runtime monitoring: real dcat/dgrep/dtail against fleets of 2-8 in-process servers with several files each (lines up to just below the line limit), paced stdout; every source line carries its own host, file, number, length and CRC; oracle applied to every output line (complete record, checksum, attribution, per-source order)",
+ "runtime monitoring: real dcat/dgrep/dtail against fleets of 2-8 in-process servers with several files each (lines up to just below the line limit, and beyond it with the pieces re-assembled per source), paced stdout; every source line carries its own host, file, number, length and CRC; oracle applied to every output line (complete record, checksum, attribution, per-source order)",
  "Held on the output lines counted in the evidence (sources up to 8 servers x 5 files; source switches actually observed are counted).",
  "Trusted: CRC32 self-description of the lines; host identity via DTAIL_HOSTNAME_OVERRIDE.",
  "DESIGN.md §2 C07")
@@ -84,7 +84,7 @@ add("C15","fault_enumeration",
  "Trusted: strace's path filter and injection; hook call sites out.* (strace tier is hook-free); a kill inside one write(2) is not separately reachable.",
  "DESIGN.md §2 C15")
 add("C17","exploration",
- "runtime monitoring: seeded known_hosts layouts and prompt scripts; the real dcat/dtail run against harness-controlled SSH servers with chosen (and changing) host keys, known_hosts edited while the client is connected; oracle = per server, shell opened and command bytes received (server-side event log) iff trusted, plus a structural comparison of known_hosts before and after and a prompt-free second run",
+ "runtime monitoring: seeded known_hosts layouts and prompt scripts; the real dcat/dtail run against harness-controlled SSH servers with chosen (and changing) host keys, known_hosts edited while the client is connected, known_hosts that cannot be parsed; oracle = per server, shell opened and command bytes received (server-side event log) iff trusted, plus a structural comparison of known_hosts before and after and a prompt-free second run",
  "Held on the cases counted in the evidence (entry kinds x answers; reconnect cases with a changed host key).",
  "Trusted: x/crypto/ssh/knownhosts for generating test entries (also used by the subject); clients run with --logger none.",
  "DESIGN.md §2 C17")
